@@ -2,6 +2,10 @@ package node
 
 import (
 	"fmt"
+	"strings"
+
+	"github.com/ethereum/go-ethereum/common"
+	"github.com/tharsis/ethermint/x/evm/statedb"
 
 	abci "github.com/tendermint/tendermint/abci/types"
 
@@ -31,6 +35,16 @@ func runHookOn(a *app.Teleport, bb abci.RequestBeginBlock, chainName, name strin
 			panic(fmt.Sprintf("hook setChainName: %v", err))
 		}
 	default:
+		if strings.HasPrefix(name, "suicide:") {
+			// self-destruct of a token contract (the repository's own tests produce this state the same way)
+			ctx := a.BaseApp.NewContext(false, bb.Header)
+			db := statedb.New(ctx, a.EvmKeeper, statedb.NewEmptyTxConfig(common.BytesToHash(ctx.HeaderHash().Bytes())))
+			db.Suicide(common.HexToAddress(strings.TrimPrefix(name, "suicide:")))
+			if err := db.Commit(); err != nil {
+				panic(fmt.Sprintf("hook suicide: %v", err))
+			}
+			return
+		}
 		panic("unknown hook " + name)
 	}
 }
